@@ -312,7 +312,7 @@ def cases(tier):
       out.append(Case(PROP, Q.QF + cls + ".__call__", "phase1_quadratic%d" % quad, po2_phase1(cls, quad), bounds=bounds,
                       replay_kind="c08_po2", assumptions=ASSUME + ["contract of stochastic_round_po2 (adjacent integer exponent) assumed at its call site"],
                       setup=phase(1), lo=-130, hi=130))
-  out.append(Case(PROP, Q.QF + "stochastic_round_po2", "body", po2_sr_scenario(), bounds=bounds, replay_kind=None,
+  out.append(Case(PROP, Q.QF + "stochastic_round_po2", "body", po2_sr_scenario(), bounds=bounds, replay_kind="c08_sr_po2",
                   assumptions=ASSUME, setup=phase(1), lo=-40, hi=40, timeout_ms=20000))
   for cls in ("stochastic_binary", "stochastic_ternary"):
     out.append(Case(PROP, Q.QF + cls + ".__call__", "phase0", stoch_class_phase0(cls), bounds=bounds,
